@@ -1,9 +1,11 @@
 import Std.Data.HashMap
 import Driver.Util
 import Driver.C16
+import Driver.C17
+import Driver.C18
 open Driver
 
-def allEntries : List Entry := Driver.C16.entries
+def allEntries : List Entry := Driver.C16.entries ++ Driver.C17.entries ++ Driver.C18.entries
 
 def table : Std.HashMap String Handler :=
   allEntries.foldl (fun m e => m.insert (e.kind ++ " " ++ e.op) e.run) {}
